@@ -42,6 +42,7 @@ type PropSpec struct {
 
 type Index struct {
 	HarnessDirs map[string]string   `json:"harness_dirs"` // package pattern -> dir under /verif/harness
+	Shared      map[string][]string `json:"shared"`       // package pattern -> template files under /verif/harness/shared
 	Properties  map[string]PropSpec `json:"properties"`
 }
 
@@ -179,6 +180,27 @@ func harnessFiles(ix *Index, pat string) map[string][]byte {
 	}
 	if len(out) == 0 {
 		fatal(2, "no harness files in %s", dir)
+	}
+	var clause string
+	for _, src := range out {
+		clause = packageClause(src)
+	}
+	for _, sh := range ix.Shared[pat] {
+		b, err := os.ReadFile(filepath.Join(verifDir, "harness", "shared", sh))
+		if err != nil {
+			fatal(2, "%v", err)
+		}
+		txt := strings.Replace(string(b), "package PKG", clause, 1)
+		if pat == "./server/kv" {
+			var keep []string
+			for _, l := range strings.Split(txt, "\n") {
+				if !strings.Contains(l, "//IMPORT-KV") {
+					keep = append(keep, l)
+				}
+			}
+			txt = strings.ReplaceAll(strings.Join(keep, "\n"), "kvq.", "")
+		}
+		out["shared_"+sh] = []byte(txt)
 	}
 	return out
 }
